@@ -69,11 +69,11 @@ func toSlotInfo(intervals []Interval) ([]infoTuple, int) {
 				inInterval = &intervals[interval]
 				break
 			}
-			if second < intervals[interval].Min && i-1 >= 0 && second >= intervals[interval-1].Max {
+			if second < intervals[interval].Min && interval-1 >= 0 && second >= intervals[interval-1].Max {
 				next = &intervals[interval]
 				break
 			}
-			if second >= intervals[interval].Max && i+1 < len(intervals) && second < intervals[interval+1].Min {
+			if second >= intervals[interval].Max && interval+1 < len(intervals) && second < intervals[interval+1].Min {
 				next = &intervals[interval+1]
 				break
 			}
